@@ -18,6 +18,9 @@ package collection
 //@ ghost var slotIdx map[*list.List]int
 
 //@ spec wait(s int, p int, n int) int = (s - p - 1 + n) % n + 1
+// the same as an SMT function symbol (usable as a quantifier trigger in the tick lemmas)
+//@ specfn waitf(s int, p int, n int) int = (s - p - 1 + n) % n + 1
+//@ specfn slotAfter(p int, d int, n int) int = (p + d) % n
 
 // SafeMap seen by its clients: two model fields (ghost maps), smH[m] = key set, smV[m] = values.
 // The SafeMap methods are verified against these contracts under C16 (coupling invariant smRep).
@@ -33,7 +36,7 @@ package collection
 //@ spec pe(tw *TimingWheel, k any) *positionEntry = smGet(tw.timers, k).(*positionEntry)
 //@ spec itemOK(tw *TimingWheel, x *timingEntry) bool = x.circle >= 0 && 0 <= x.diff && x.diff < tw.numSlots
 //@ spec inWheel(tw *TimingWheel, x *timingEntry) bool = listOf[x] != nil && 0 <= slotIdx[listOf[x]] && slotIdx[listOf[x]] < tw.numSlots && tw.slots[slotIdx[listOf[x]]] == listOf[x]
-//@ spec rem(tw *TimingWheel, x *timingEntry) int = wait(slotIdx[listOf[x]], tw.tickedPos, tw.numSlots) + x.circle*tw.numSlots + x.diff
+//@ spec rem(tw *TimingWheel, x *timingEntry) int = waitf(slotIdx[listOf[x]], tw.tickedPos, tw.numSlots) + x.circle*tw.numSlots + x.diff
 //@ spec timerOK(tw *TimingWheel, k any) bool = pe(tw, k) != nil && allocated(pe(tw, k)) && pe(tw, k).item != nil && allocated(pe(tw, k).item) && !pe(tw, k).item.removed && pe(tw, k).item.key == k &&
 //@      0 <= pe(tw, k).pos && pe(tw, k).pos < tw.numSlots && listOf[pe(tw, k).item] == tw.slots[pe(tw, k).pos]
 //@ spec timersOK(tw *TimingWheel) bool = forall(k.(any), implies(smHas(tw.timers, k), timerOK(tw, k)))
@@ -134,7 +137,7 @@ package collection
 //@ lemma modshift(p int, d int, n int)
 //@   property C12
 //@   hyp 0 <= p && p < n && 0 < d && d < n
-//@   goal (p+d)%n != p && 0 <= (p+d)%n && (p+d)%n < n && wait((p+d)%n, p, n) == d
+//@   goal (p+d)%n != p && 0 <= (p+d)%n && (p+d)%n < n && waitf((p+d)%n, p, n) == d
 
 //@ func (tw *TimingWheel) runTasks
 //@   trusted
@@ -149,12 +152,13 @@ package collection
 //@   ensures  forall(x.(*timingEntry), implies(old(listOf[x]) == l && !old(x.removed) && old(x.circle) > 0,
 //@              listOf[x] == l && x.circle == old(x.circle) - 1 && x.diff == old(x.diff) && !x.removed))
 //@   ensures  forall(x.(*timingEntry), implies(old(listOf[x]) == l && !old(x.removed) && old(x.circle) <= 0 && old(x.diff) > 0,
-//@              listOf[x] == tw.slots[(tw.tickedPos+old(x.diff))%tw.numSlots] && x.circle == old(x.circle) && x.diff == 0 && !x.removed))
+//@              listOf[x] == tw.slots[slotAfter(tw.tickedPos, old(x.diff), tw.numSlots)] && x.circle == old(x.circle) && x.diff == 0 && !x.removed))
 //@   ensures  forall(x.(*timingEntry), implies(old(listOf[x]) == l && !old(x.removed) && old(x.circle) <= 0 && old(x.diff) <= 0,
 //@              listOf[x] == nil && fired[x] && !smHas(tw.timers, x.key)))
 //@   ensures  forall(x.(*timingEntry), implies(old(allocated(x)) && old(listOf[x]) != l,
 //@              listOf[x] == old(listOf[x]) && x.removed == old(x.removed) && x.circle == old(x.circle) && x.diff == old(x.diff)))
 //@   ensures  forall(x.(*timingEntry), implies(fired[x] && !old(fired[x]), old(listOf[x]) == l && !old(x.removed) && old(x.circle) <= 0 && old(x.diff) <= 0))
+//@   ensures  forall(x.(*timingEntry), implies(old(fired[x]), fired[x]))
 //@   modifies listOf, fired, timingEntry.circle, timingEntry.diff, positionEntry.item, positionEntry.pos, smH[tw.timers], smV[tw.timers]
 //@   allocates
 //@   call append#0: assert arg1.key == task.key && arg1.value == task.value
@@ -169,11 +173,12 @@ package collection
 //@   loop 0: invariant forall(x.(*timingEntry), implies(seen[x] && !old(x.removed) && old(x.circle) > 0,
 //@              listOf[x] == l && x.circle == old(x.circle) - 1 && x.diff == old(x.diff) && !x.removed))
 //@   loop 0: invariant forall(x.(*timingEntry), implies(seen[x] && !old(x.removed) && old(x.circle) <= 0 && old(x.diff) > 0,
-//@              listOf[x] == tw.slots[(tw.tickedPos+old(x.diff))%tw.numSlots] && x.circle == old(x.circle) && x.diff == 0 && !x.removed))
+//@              listOf[x] == tw.slots[slotAfter(tw.tickedPos, old(x.diff), tw.numSlots)] && x.circle == old(x.circle) && x.diff == 0 && !x.removed))
 //@   loop 0: invariant forall(x.(*timingEntry), implies(seen[x] && !old(x.removed) && old(x.circle) <= 0 && old(x.diff) <= 0,
 //@              listOf[x] == nil && fired[x] && !smHas(tw.timers, x.key)))
 //@   loop 0: invariant forall(x.(*timingEntry), implies(old(allocated(x)) && old(listOf[x]) != l,
 //@              listOf[x] == old(listOf[x]) && x.removed == old(x.removed) && x.circle == old(x.circle) && x.diff == old(x.diff)))
+//@   loop 0: invariant forall(x.(*timingEntry), implies(old(fired[x]), fired[x]))
 //@   loop 0: invariant forall(x.(*timingEntry), implies(fired[x] && !old(fired[x]), seen[x] && !old(x.removed) && old(x.circle) <= 0 && old(x.diff) <= 0))
 
 // ---- Drain ----
@@ -212,3 +217,36 @@ package collection
 //@   property C12
 //@   flag callbacks_noheap
 //@   ensures calls(fn) == old(calls(fn)) + 1 && argOf(fn, 0) == task.key && argOf(fn, 1) == task.value
+
+// ---- one tick ----
+//@ lemma waitstep(p int, n int)
+//@   property C12
+//@   hyp 0 <= p && p < n
+//@   goal forall(s.(int), implies(0 <= s && s < n, ite(s == (p+1)%n, waitf(s, p, n) == 1 && waitf(s, (p+1)%n, n) == n, waitf(s, (p+1)%n, n) == waitf(s, p, n) - 1 && waitf(s, p, n) >= 2)))
+//@ lemma modshiftAll(p int, n int)
+//@   property C12
+//@   hyp 0 <= p && p < n
+//@   goal forall(d.(int), implies(0 < d && d < n, slotAfter(p, d, n) != p && 0 <= slotAfter(p, d, n) && slotAfter(p, d, n) < n && waitf(slotAfter(p, d, n), p, n) == d))
+
+//@ func (tw *TimingWheel) onTick
+//@   property C12
+//@   requires wheelOK(tw) && timersOK(tw) && liveOK(tw) && itemsOK(tw)
+//@   ensures  wheelOK(tw) && timersOK(tw) && liveOK(tw) && itemsOK(tw)
+//@   ensures  tw.tickedPos == (old(tw.tickedPos)+1)%tw.numSlots
+//@   ensures  forall(x.(*timingEntry), implies(old(inWheel(tw, x)) && !old(x.removed) && old(rem(tw, x)) == 1,
+//@              fired[x] && listOf[x] == nil && !smHas(tw.timers, x.key)))
+//@   ensures  forall(x.(*timingEntry), implies(old(inWheel(tw, x)) && !old(x.removed) && old(rem(tw, x)) != 1,
+//@              inWheel(tw, x) && !x.removed && fired[x] == old(fired[x])))
+//@   ensures  forall(x.(*timingEntry), implies(old(inWheel(tw, x)) && !old(x.removed) && old(listOf[x]) != tw.slots[tw.tickedPos],
+//@              rem(tw, x) == old(rem(tw, x)) - 1))
+//@   ensures  forall(x.(*timingEntry), implies(old(inWheel(tw, x)) && !old(x.removed) && old(listOf[x]) == tw.slots[tw.tickedPos] && old(x.circle) > 0,
+//@              rem(tw, x) == old(rem(tw, x)) - 1))
+//@   ensures  forall(x.(*timingEntry), implies(old(inWheel(tw, x)) && !old(x.removed) && old(listOf[x]) == tw.slots[tw.tickedPos] && old(x.circle) <= 0 && old(x.diff) > 0,
+//@              rem(tw, x) == old(rem(tw, x)) - 1))
+//@   ensures  forall(x.(*timingEntry), implies(old(inWheel(tw, x)) && !old(x.removed) && old(listOf[x]) == tw.slots[tw.tickedPos] && old(x.circle) <= 0 && old(x.diff) <= 0,
+//@              old(rem(tw, x)) == 1))
+//@   ensures  forall(x.(*timingEntry), implies(fired[x] && !old(fired[x]), old(inWheel(tw, x)) && !old(x.removed) && old(rem(tw, x)) == 1))
+//@   modifies tw.tickedPos, listOf, fired, timingEntry.circle, timingEntry.diff, positionEntry.item, positionEntry.pos, smH[tw.timers], smV[tw.timers]
+//@   allocates
+//@   ghost at entry: lemma waitstep(tw.tickedPos, tw.numSlots)
+//@   ghost at before scanAndRunTasks#0: lemma modshiftAll(tw.tickedPos, tw.numSlots)
